@@ -28,6 +28,10 @@ td_slots = st.one_of(
     st.builds(lambda d, s, u: [d, s, u], st.integers(-90000, 90000), st.integers(0, 86399), st.integers(0, 999999)),
     st.builds(lambda s, u: [0, s, u], st.sampled_from([2**31, 2**32, 2**33, -(2**32), 2**32 - 1, 2**34]), st.sampled_from([0, 1, -1, 999999])),
 )
+# the ends of timedelta's (asymmetric) range: max = 999999999 days 23:59:59.999999, min = -999999999 days; an operation whose native
+# result is representable must not fail on the way (a - b computed as a + (-b) overflows for b in the last day of the range)
+td_limits = st.sampled_from([[999999999, 86399, 999999], [-999999999, 0, 0], [999999999, 0, 1], [999999999, 0, 0], [-999999999, 0, 1], [999999998, 86399, 999999],
+                             [-999999998, 0, 0], [500000000, 0, 0], [-500000000, 0, 1]])
 
 
 def mk_td(x):
@@ -52,6 +56,7 @@ BIN = [("add", operator.add), ("sub", operator.sub), ("floordiv", operator.floor
 
 
 class Binary(Sub):
+    ambient = True
     name = "duration_op_duration"
     backends = ("py",)
     n = {"quick": 16000, "thorough": 500000}
@@ -59,7 +64,7 @@ class Binary(Sub):
     rule = "pairs (Duration|timedelta, Duration|timedelta) in the three mixed arrangements; non-trivial: operand types differ or the result crosses zero or an operand reaches 2^31 s"
 
     def strategy(self, ctx):
-        return st.fixed_dictionaries({"a": td_slots, "b": td_slots})
+        return st.fixed_dictionaries({"a": td_slots | td_limits, "b": td_slots | td_limits})
 
     def check(self, case, ctx):
         a, b = mk_td(case["a"]), mk_td(case["b"])
@@ -96,12 +101,18 @@ class Binary(Sub):
                 req(fn(x, y) == e, f"comparison {nm} disagrees with timedelta", **ctxd)
         req(hash(da) == hash(a) and da == a and a == da, "hash/== of a Duration disagree with the equal timedelta", **ctxd)
         for nm, fn in (("neg", operator.neg), ("abs", abs), ("pos", operator.pos)):
+            try:
+                e = fn(a)
+            except OverflowError:
+                try:
+                    r = fn(da)
+                except OverflowError:
+                    continue
+                raise Violation(f"{nm}: native timedelta overflows, Duration returns a value", got=repr(r), **ctxd)
             r = fn(da)
-            same(nm, r, fn(a), ctxd)
+            same(nm, r, e, ctxd)
             if nm == "neg":
                 req(type(r) is Duration, "negation does not return a Duration", got=type(r).__name__)
-        s = (a + b)
-        nt = (raw(s)[0] < 0) != (raw(a)[0] < 0) or abs(a.total_seconds()) >= 2**31 or abs(b.total_seconds()) >= 2**31
         return True, "big" if abs(a.total_seconds()) >= 2**31 or abs(b.total_seconds()) >= 2**31 else "normal"
 
 
@@ -111,6 +122,7 @@ tie_slots = st.builds(lambda k, sg: [0, 0, sg * (2 * k + 1)], st.integers(0, 10*
 
 
 class Scalar(Sub):
+    ambient = True
     name = "duration_op_scalar"
     backends = ("py",)
     n = {"quick": 16000, "thorough": 500000}
@@ -144,6 +156,7 @@ class Scalar(Sub):
 
 
 class YearsMonths(Sub):
+    ambient = True
     name = "years_months"
     backends = ("py",)
     n = {"quick": 8000, "thorough": 200000}
@@ -179,6 +192,7 @@ class YearsMonths(Sub):
 
 
 class IntervalDelegation(Sub):
+    ambient = True
     name = "interval_ops"
     backends = ("py",)
     n = {"quick": 4000, "thorough": 80000}
